@@ -5,28 +5,11 @@
 From Coq Require Import ZArith List Lia Bool.
 From Coq Require Import ZifyBool.
 From RTP Require Import Base.Bits Base.Res Base.ListX Base.Tactics Model.Leb128 Model.Obu Model.Av1Pay Model.Av1Depack
-  Proofs.Leb128Proofs Proofs.C13_Obu Proofs.C08_Av1 Proofs.C15_Av1 Proofs.C13_Stream Proofs.C13_PayStream.
+  Spec.Av1Rtp Proofs.Leb128Proofs Proofs.C13_Obu Proofs.C08_Av1 Proofs.C15_Av1 Proofs.C13_Stream Proofs.C13_PayStream.
 Import ListNotations.
 Open Scope Z_scope.
 
-(* an OBU of the caller's temporal unit *)
-Record iobu : Type := mkIobu { io_type : Z; io_ext : option (Z * Z * Z); io_res1 : bool; io_body : list Z }.
-
-Definition io_hdr (o : iobu) (sized : bool) : obuhdr := mkObuHdr (io_type o) (io_ext o) sized (io_res1 o).
-
-(* low-overhead bitstream format: header, optional LEB128 size, payload *)
-Definition io_bytes (sized : bool) (o : iobu) : list Z :=
-  obu_hdr_marshal (io_hdr o sized) ++ (if sized then write_leb128 (zlen (io_body o)) else []) ++ io_body o.
-
-(* as transmitted in RTP: size flag cleared, no size field *)
-Definition io_elem (o : iobu) : list Z := obu_hdr_marshal (io_hdr o false) ++ io_body o.
-
-(* temporal delimiters and tile lists are not transmitted *)
-Definition transmitted (o : iobu) : bool := negb ((io_type o =? 2) || (io_type o =? 8)).
-
 Definition wf_iobu (o : iobu) : Prop := hdr_in_range (io_hdr o true) /\ zlen (io_body o) < 4294967296.
-
-Definition stream (obus : list iobu) : list Z := concat (map (io_bytes true) obus).
 
 Lemma io_range o b : wf_iobu o -> hdr_in_range (io_hdr o b).
 Proof. intros [H _]. exact H. Qed.
@@ -281,7 +264,6 @@ Proof.
 Qed.
 
 (* ---- the same with the size field omitted on the last OBU ---- *)
-Definition stream_u (init : list iobu) (lst : iobu) : list Z := stream init ++ io_bytes false lst.
 
 Lemma pay_loop_prefix mtu : 2 <= mtu < 2097152 -> forall obus fuel st sent st' tl, Forall wf_iobu obus ->
   (length obus < fuel)%nat ->
